@@ -6,7 +6,6 @@ import (
 	"context"
 	"errors"
 	"fmt"
-	"maps"
 	"math"
 	"os"
 	"reflect"
@@ -1850,14 +1849,15 @@ func (m *Machine) ParseStates(states S) S {
 		}
 	}
 
+	// known states only, in the passed order
+	ret := slicesFilter(states, func(name string, _ int) bool {
+		_, ok := seen[name]
+		return ok
+	})
 	if dups {
-		// known states only
-		return slicesUniq(slicesFilter(states, func(name string, _ int) bool {
-			_, ok := seen[name]
-			return ok
-		}))
+		return slicesUniq(ret)
 	}
-	return slices.Collect(maps.Keys(seen))
+	return ret
 }
 
 // VerifyStates verifies an array of state names and returns an error in case
